@@ -174,6 +174,28 @@ var astOpen = []string{
 	"saltpack.computeMACKeysSender",
 }
 
+// gen/GoAstEntry.v: the one-shot and constructor entry points of the senders, and the stream classifiers
+var astEntry = []string{
+	"saltpack.newEncryptStream",
+	"saltpack.NewEncryptStream",
+	"saltpack.seal",
+	"saltpack.Seal",
+	"saltpack.receiversToEphemeralKeyCreator",
+	"saltpack.NewSignStream",
+	"saltpack.Sign",
+	"saltpack.NewSignDetachedStream",
+	"saltpack.SignDetached",
+	"saltpack.signToStream",
+	"saltpack.newSigncryptSealStream",
+	"saltpack.NewSigncryptSealStream",
+	"saltpack.signcryptSeal",
+	"saltpack.SigncryptSeal",
+	"saltpack.IsSaltpackBinary",
+	"saltpack.IsSaltpackArmored",
+	"saltpack.ClassifyStream",
+	"saltpack.ClassifyEncryptedStreamAndMakeDecoder",
+}
+
 type astGen struct {
 	info    *types.Info
 	pkg     *types.Package
@@ -292,6 +314,11 @@ func (g *astGen) expr(e ast.Expr) string {
 		if obj := g.info.Uses[x]; obj != nil {
 			if v, ok := obj.(*types.Var); ok && v.Parent() == v.Pkg().Scope() && isErrorType(v.Type()) {
 				return fmt.Sprintf("(EErrVar %s)", coqStr(x.Name))
+			}
+			// a package-level function used as a VALUE (passed as an argument): represented by its name; the call
+			// through the parameter that receives it is an extern of the callee
+			if fn, ok := obj.(*types.Func); ok && fn.Pkg() != nil && fn.Parent() == fn.Pkg().Scope() {
+				return fmt.Sprintf("(EStr %s)", coqStr("func:"+x.Name))
 			}
 		}
 		return fmt.Sprintf("(EVar %s)", coqStr(x.Name))
